@@ -98,6 +98,8 @@ structure EpDesc where
   respOpaque : Bool
   kind : Kind
   hdrTy : Option Fields
+  /-- a response header carries this query parameter's value as received -/
+  hdrFrom : Option String
 
 def kindOf : String → Option Kind
   | "ok" => some .ok | "created" => some .created | "accepted" => some .accepted
@@ -123,7 +125,8 @@ def epOf (j : J) : Option EpDesc := do
     | _ => []
   pure { op := op, pathTy := p, queryTy := q, queryFlat := flat, bodyTy := b,
          bodyCt := (j.get? "bodyCt").bind J.asStr?, respTy := r,
-         respOpaque := (j.get? "respOpaque") == some (.bool true), kind := k, hdrTy := h }
+         respOpaque := (j.get? "respOpaque") == some (.bool true), kind := k, hdrTy := h,
+         hdrFrom := (j.get? "hdrFrom").bind J.asStr? }
 
 /-! ### The document side -/
 
@@ -330,7 +333,13 @@ def handleRq (id variant : String) (ep : EpDesc) (op comps req : J) (status : Na
         (match loadForm fs mime (pairsOf (rbody.getD (.obj []))) with | .ok _ => .ok () | .error e => .error e)
       | some t, _ =>
         (match loadBody t mime (if hasBody then rbody else none) with | .ok _ => .ok () | .error e => .error e)
-    let hdrOk := match ep.hdrTy with | some fs => headersSerialisable fs | none => true
+    -- `http::HeaderValue`: bytes 0x20-0x7E, HTAB and 0x80-0xFF; a handler value that holds
+    -- anything else (a line feed, DEL) cannot be sent and the conversion of its `Ok` value fails
+    let hdrValOk := match ep.hdrFrom with
+      | some n => queryPairs.all fun (k, v) => k != n ||
+          v.toList.all fun c => (c.toNat ≥ 32 && c.toNat != 127) || c == '\t'
+      | none => true
+    let hdrOk := (match ep.hdrTy with | some fs => headersSerialisable fs | none => true) && hdrValOk
     let predicted : Nat := match pathRes, queryRes, bodyRes with
       | .error e, _, _ => e
       | _, .error e, _ => e
@@ -366,7 +375,9 @@ def handleRq (id variant : String) (ep : EpDesc) (op comps req : J) (status : Na
         (match rbody with
           | some j => s.valid env j && fmtOkR d 16 s j
           | none => false)
-    let pre := reqPresent && valsOk && bodyOk
+    -- (a handler that puts an unsendable value into a response header has not produced a
+    -- response: the 2xx clause applies to requests the handler can answer)
+    let pre := reqPresent && valsOk && bodyOk && hdrValOk
     let is23 := decide (200 ≤ status) && decide (status < 400)
     let is4 := decide (400 ≤ status) && decide (status < 500)
     -- s3 / s4: the response is documented
@@ -391,6 +402,7 @@ def handleRq (id variant : String) (ep : EpDesc) (op comps req : J) (status : Na
     let s1 := if variant == "valid" || variant == "ctype-same" then (if pre then some is23 else none) else some true
     let s2 := if variant == "omit" then is4 else true
     let (specS, why) : String × String :=
+      if status ≥ 400 && !respOk.1 then ("0", s!"error-body-not-as-documented:{status}:{respOk.2}") else
       match s1 with
       | none => ("na", "precondition-not-met")
       | some a =>
@@ -418,7 +430,7 @@ def handleRq (id variant : String) (ep : EpDesc) (op comps req : J) (status : Na
     let k8 := match ep.respTy, succContent, respBodyJ with
       | some (.opt t), some [(_, .ref _)], some .null => t.isRef
       | _, _, _ => false
-    let known := if specS != "0" then "-" else
+    let known := if specS != "0" || why.startsWith "error-body-not-as-documented" then "-" else
       if k3 then "K3" else if k6 then "K6" else if k7 then "K7" else if k8 then "K8" else "-"
     let shape := (if ep.pathTy.isSome then "p" else "") ++ (if ep.queryTy.isSome then "q" else "")
       ++ (match ep.bodyCt with
